@@ -201,6 +201,18 @@ type world struct {
 	heldEvents map[string]bool // what happened since the retained slices were verified last (class counters only)
 	pageOf     map[int64]int64 // modelled data page of a sequence (generation / class counters only)
 	holdSerial int
+
+	// configuration of the next open (pagesize_test.go): the data page size handed to NewQueue
+	pageSize    int64
+	pageSizes   []int64 // the sizes an open of this history may be configured with
+	createdWith int64   // largest effective page size a data page file of this queue was mapped with so far
+	sizeChanges int
+	sizeShrinks int
+	// index resets (reset_test.go)
+	resetNoPut     bool // nothing was appended since the last SetAppendedSeq
+	resetUnwritten bool // ... and that reset went to a sequence whose index entry was never written
+	cursorRewound  bool // a reopen recomputed the write cursor from such an entry (data page 0, offset 0)
+	indexJumps     int  // resets that moved the append position into another index page
 }
 
 func (w *world) logf(format string, args ...any) { w.ops = append(w.ops, fmt.Sprintf(format, args...)) }
@@ -313,11 +325,12 @@ func (w *world) check(where string) {
 }
 
 func (w *world) open() {
-	q, err := queue.NewQueue(w.dir, 0)
+	q, err := queue.NewQueue(w.dir, w.pageSize)
 	if err != nil {
-		w.fatalf("open queue: %v", err)
+		w.fatalf("open queue (page size %d): %v", w.pageSize, err)
 	}
 	w.q = q
+	w.opened()
 }
 
 // genSize: the boundary payload sizes (empty, shorter than a word) are classes of their own.
@@ -384,6 +397,7 @@ func (w *world) tryPut(m msg) (putErr, violation error) {
 		return nil, fmt.Errorf("sequence %d held message %d and was handed out again to a new append", after, prev)
 	}
 	w.assigned[after] = m.id
+	w.resetNoPut = false
 	w.noteHeld("append")
 	if w.room() == m.size {
 		w.classes["put-exact-fit(page full)"]++
@@ -571,6 +585,8 @@ func (w *world) opReopen() {
 	}
 	w.dropHeld("close") // Close unmaps every page: nothing a reader holds may be touched afterwards
 	w.q.Close()
+	w.closedAfterReset()
+	w.nextPageSize()
 	w.open()
 	w.classes["reopen"]++
 }
@@ -725,9 +741,17 @@ func (w *world) opCrashPut(all bool) {
 }
 
 func (w *world) recoverImage(p crash.Point, putsBefore int, inflight msg) {
-	rq, err := queue.NewQueue(p.Dir, 0)
+	// the process that recovers the image may be configured with another page size
+	size := w.pageSize
+	if len(w.pageSizes) > 0 {
+		size = w.pageSizes[p.Seq%len(w.pageSizes)]
+	}
+	rq, err := queue.NewQueue(p.Dir, size)
 	if err != nil {
-		w.fatalf("image %s: queue cannot be reopened: %v", p, err)
+		w.fatalf("image %s: queue cannot be reopened (page size %d): %v", p, size, err)
+	}
+	if effectiveSize(size) != effectiveSize(w.pageSize) {
+		w.classes["crash-image-recovered-with-another-page-size"]++
 	}
 	defer rq.Close()
 	app := rq.AppendedSeq()
@@ -822,6 +846,9 @@ func newWorld(t *rapid.T, prefix string) (*world, func()) {
 func runHistory(t *rapid.T, thorough bool) {
 	w, cleanup := newWorld(t, "c05-")
 	defer cleanup()
+	// configuration dimension: a few legal page sizes, possibly another one at every open
+	w.pageSizes = []int64{0, 1, 64 << 20, dataPageSize, 2 * dataPageSize, 2 * dataPageSize}
+	w.pageSize = rapid.SampledFrom(w.pageSizes).Draw(t, "pageSize")
 	w.open()
 	if rapid.IntRange(0, 3).Draw(t, "startAtIndexPageBoundary") == 0 {
 		w.opBoundaryReopen()
@@ -841,26 +868,29 @@ func runHistory(t *rapid.T, thorough bool) {
 		}
 	}
 	t.Repeat(map[string]func(*rapid.T){
-		"put":            func(t *rapid.T) { w.t = t; w.opPut() },
-		"put2":           func(t *rapid.T) { w.t = t; w.opPut() },
-		"putTooBig":      func(t *rapid.T) { w.t = t; w.opPutTooBig() },
-		"fill":           func(t *rapid.T) { w.t = t; w.opFill() },
-		"overlappingPut": func(t *rapid.T) { w.t = t; w.opOverlappingPut() },
-		"crashPut":       func(t *rapid.T) { w.t = t; w.opCrashPut(thorough) },
-		"crashPut2":      func(t *rapid.T) { w.t = t; w.opCrashPut(thorough) },
-		"reopen":         func(t *rapid.T) { w.t = t; w.opReopen() },
-		"faultyPut":      func(t *rapid.T) { w.t = t; w.opFaultyPut() },
-		"reopenFaulty":   func(t *rapid.T) { w.t = t; w.opReopenFaulty() },
-		"ack":            func(t *rapid.T) { w.t = t; w.opAck() },
-		"gc":             func(t *rapid.T) { w.t = t; w.opGC() },
-		"gcInterleaved":  func(t *rapid.T) { w.t = t; w.opGCInterleaved() },
-		"gcInterleaved2": func(t *rapid.T) { w.t = t; w.opGCInterleaved() },
-		"getAndHold":     func(t *rapid.T) { w.t = t; w.opGetAndHold() },
-		"getAndHold2":    func(t *rapid.T) { w.t = t; w.opGetAndHold() },
-		"getAndHold3":    func(t *rapid.T) { w.t = t; w.opGetAndHold() },
-		"release":        func(t *rapid.T) { w.t = t; w.opRelease() },
-		"ackBelowHeld":   func(t *rapid.T) { w.t = t; w.opAckBelowHeld() },
-		"":               func(t *rapid.T) { w.t = t; w.check("after step") },
+		"put":             func(t *rapid.T) { w.t = t; w.opPut() },
+		"put2":            func(t *rapid.T) { w.t = t; w.opPut() },
+		"putTooBig":       func(t *rapid.T) { w.t = t; w.opPutTooBig() },
+		"fill":            func(t *rapid.T) { w.t = t; w.opFill() },
+		"overlappingPut":  func(t *rapid.T) { w.t = t; w.opOverlappingPut() },
+		"crashPut":        func(t *rapid.T) { w.t = t; w.opCrashPut(thorough) },
+		"crashPut2":       func(t *rapid.T) { w.t = t; w.opCrashPut(thorough) },
+		"reopen":          func(t *rapid.T) { w.t = t; w.opReopen() },
+		"faultyPut":       func(t *rapid.T) { w.t = t; w.opFaultyPut() },
+		"reopenFaulty":    func(t *rapid.T) { w.t = t; w.opReopenFaulty() },
+		"ack":             func(t *rapid.T) { w.t = t; w.opAck() },
+		"gc":              func(t *rapid.T) { w.t = t; w.opGC() },
+		"gcInterleaved":   func(t *rapid.T) { w.t = t; w.opGCInterleaved() },
+		"gcInterleaved2":  func(t *rapid.T) { w.t = t; w.opGCInterleaved() },
+		"getAndHold":      func(t *rapid.T) { w.t = t; w.opGetAndHold() },
+		"getAndHold2":     func(t *rapid.T) { w.t = t; w.opGetAndHold() },
+		"getAndHold3":     func(t *rapid.T) { w.t = t; w.opGetAndHold() },
+		"release":         func(t *rapid.T) { w.t = t; w.opRelease() },
+		"ackBelowHeld":    func(t *rapid.T) { w.t = t; w.opAckBelowHeld() },
+		"reset":           func(t *rapid.T) { w.t = t; w.opReset() },
+		"resetDuringPut":  func(t *rapid.T) { w.t = t; w.opResetDuringPut() },
+		"resetDuringPut2": func(t *rapid.T) { w.t = t; w.opResetDuringPut() },
+		"":                func(t *rapid.T) { w.t = t; w.check("after step") },
 	})
 	w.t = t
 	// closing sequence: reopen and append once more, everything must still be intact
@@ -869,7 +899,7 @@ func runHistory(t *rapid.T, thorough bool) {
 	w.opPut()
 	w.check("after final append")
 	nt := w.nt > 0 || (w.classes["overlapping-put"] > 0 && w.classes["reopen"] > 1) || w.classes["gc-interleaved-with-appends"] > 0 ||
-		w.classes["fault-put-failed"] > 0 || w.heldNonTrivial()
+		w.classes["fault-put-failed"] > 0 || w.heldNonTrivial() || w.classes["reset-during-append"] > 0
 	for c, n := range w.classes {
 		ev.Class("TestQueueHistory", c, n)
 	}
